@@ -76,6 +76,7 @@ class Profile:
     p_prelude: int = 8                  # graph queried and re-wired before the run
     p_ret: int = 12                     # the body returns None / 0 / False / '' / a Future
     p_latefill: int = 6                 # schedulers created empty, wired, then filled
+    p_block: int = 0                    # a job has a blocking (synchronous) section
     p_big: int = 8                      # % of schedulers that may have up to big_members
     big_members: int = 9
     force_nested: int = 0               # % of cases whose top has a nested scheduler for sure
@@ -89,7 +90,7 @@ WIDE_SIZES = [12, 17, 20, 33, 40, 51, 65, 101, 130, 300]
 ODD_LABELS = ['{}', '{0}', '{x}', "awk '{print $1}'", '%s %d', '100%', 'a "quoted" one',
               'two\nlines', '', ' ', 'é→中', '${HOME}', '}{', 'x' * 60]
 EXC_NAMES = ['TimeoutError', 'KeyError', 'ValueError', 'OSError', 'RuntimeError',
-             'LookupError', 'AssertionError']
+             'LookupError', 'AssertionError', 'BaseExc']
 
 
 def _draw_job(draw, prof, wild, wide=False):
@@ -105,7 +106,10 @@ def _draw_job(draw, prof, wild, wide=False):
         extra['exc'] = draw(st.sampled_from(EXC_NAMES))
     if chance(draw, prof.p_ret):
         extra['ret'] = draw(st.sampled_from(['none', 'zero', 'false', 'empty', 'future-done',
-                                             'future-pending']))
+                                             'future-pending', 'exc-object', 'tuple2',
+                                             'tuple0', 'list', 'dict']))
+    if chance(draw, prof.p_block):
+        extra['b'] = draw(st.sampled_from([0.5, 1, 2]))
     return dict(
         **extra,
         kind='job', id=None,
@@ -168,7 +172,8 @@ def _draw_sched(draw, prof, depth, under_timeout, budget, top=False):
         # size thresholds (slices, batches, id widths...) sit beyond the usual small cases
         n = draw(st.sampled_from(WIDE_SIZES))
         if chance(draw, 25):
-            n = 300         # beyond CPython's cached small ints (256) as a count of members
+            # beyond CPython's cached small ints (256) / a slice of 512 as a count of members
+            n = 600 if chance(draw, 40) else 300
     if wide:
         # Hypothesis bounds the amount of entropy of one example (a few hundred draws): a
         # wide scheduler is made of a few drawn template jobs, varied by a deterministic
@@ -181,8 +186,14 @@ def _draw_sched(draw, prof, depth, under_timeout, budget, top=False):
             return state[0] >> 8
     forced = top and not wide and prof.force_nested and chance(draw, prof.force_nested)
     forced_at = draw(st.integers(0, n - 1)) if forced and n else -1
+    hub = wide and chance(draw, 50)
     for j in range(n):
-        if not wide and depth < prof.max_depth and budget[0] > 2 and (
+        if hub and j == 0:
+            # the usual layout: a nested "prepare" scheduler, then one job per node
+            member = _draw_sched(draw, prof.but(max_members=3, p_nested=0, p_wide=0),
+                                 depth + 1, under, [6])
+            member['forever'] = False
+        elif not wide and depth < prof.max_depth and budget[0] > 2 and (
                 j == forced_at or chance(draw, prof.p_nested)):
             member = _draw_sched(draw, prof, depth + 1, under, budget)
         else:
@@ -202,6 +213,8 @@ def _draw_sched(draw, prof, depth, under_timeout, budget, top=False):
         if wide:
             # sparse: at most two requirements, drawn among the earlier members
             cands = [lcg() % j for _ in range(lcg() % 3)] if j else []
+            if hub and j and lcg() % 3 == 0:
+                cands.append(0)
         else:
             cands = [i for i in range(j) if chance(draw, prof.p_edge)]
         for i in sorted(set(cands)):
@@ -277,7 +290,8 @@ def scenarios(draw, prof=GENERAL):
     top['inspect'] = chance(draw, prof.p_inspect)
     top['prelude'] = chance(draw, prof.p_prelude)
     top['latefill'] = chance(draw, prof.p_latefill)
-    top['entry'] = draw(weighted((('run', 6), ('orchestrate', 1), ('co_run', 2))))
+    top['entry'] = draw(weighted((('run', 6), ('orchestrate', 1), ('co_run', 2),
+                                  ('run-no-current-loop', 1))))
     if chance(draw, prof.p_rerun):
         top['rerun'] = True
         _force_abstract(top)        # a coroutine object cannot be awaited twice
